@@ -108,6 +108,26 @@ def run(ctx):
     ctx.analysed["loops"] = rule_loops(ctx, taint)
     rule_dev_open(ctx, taint)
     rule_dev_prefix(ctx)
+    # classification of the foreign leaves reachable from dump() (the trusted base of the ledgers)
+    cls = {"panicking": set(), "taint-source": set(), "clean": set(), "assumed-non-panicking": set()}
+    for f in taint.reach:
+        for b in ctx.prog.by_short.get(f, ()):
+            for bi, t in b.calls():
+                cv = CalleeView(t["callee"])
+                n = cv.target or cv.short
+                if n is None or n in ctx.prog.by_short or cv.short in ctx.prog.by_short:
+                    continue
+                if T.sink_kind_of_call(cv):
+                    cls["panicking"].add(n)
+                elif taint.is_source_call(n):
+                    cls["taint-source"].add(n)
+                elif n in taint.clean_calls:
+                    cls["clean"].add(n)
+                else:
+                    cls["assumed-non-panicking"].add(n)
+    ctx.analysed["foreign_callees"] = {k: len(v) for k, v in cls.items()}
+    ctx.analysed["foreign_callees_panicking"] = sorted(cls["panicking"])
+    ctx.analysed["foreign_callees_assumed_non_panicking"] = sorted(cls["assumed-non-panicking"])
 
 
 # ------------------------------------------------------------------------------------ explicit panics
